@@ -53,8 +53,8 @@ impl Engine for C17 {
     }
     fn runs(&self, tier: Tier) -> u64 {
         match tier {
-            Tier::Quick => 200_000,
-            Tier::Thorough => 4_000_000,
+            Tier::Quick => 2_000_000,
+            Tier::Thorough => 20_000_000,
         }
     }
 
